@@ -43,7 +43,7 @@ add("C06", "E1-explore",
     "On every reachable state and after every undo/redo: both lookups vs a scan of the graph (keys, no empty/duplicate/stale entries), freshness of next track/lineage/node ids, and get_track_neighbors / has_track_id_at_time for every used and unused id and every t in -1..T vs a linear scan.",
     E1NOTE, MC, "DESIGN.md 4 C06")
 add("C11", "E1-explore",
-    "Every (state, event) pair of the bounded space whose call raises - the alphabet deliberately contains refusal inputs (missing time/track id/position, existing id, unknown node/edge, merge / third child / non-forward without force, forced edits whose later step fails, protected attributes, bad swaps, paint with a refused nested add) - is followed by a comparison of the full snapshot (graph, raw attributes, array, lookups, counters, registry, both history stacks structurally) with the one taken before the call, and by a check that no refresh was emitted.",
+    "Every (state, event) pair of the bounded space whose call raises - the alphabet deliberately contains refusal inputs (missing time/track id/position, existing id, unknown node/edge, merge / third child / non-forward without force, forced edits whose later step fails, protected attributes, bad swaps, paint with a refused nested add) - is followed by a comparison of the full snapshot (graph, raw attributes, array, lookups, registry, both history stacks structurally; the id counters are excluded) with the one taken before the call, and by a check that no refresh was emitted.",
     E1NOTE + " For paint the driver restores the painted pixels first (the property's proviso).",
     MC, "DESIGN.md 4 C11")
 add("C20", "E1-explore",
@@ -74,7 +74,7 @@ add("C10", "E2-histories",
 E3M = "small-scope exhaustive enumeration of all inputs up to a size bound, each executed on the real function and compared with a brute-force reference (bounded model checking of a pure function by explicit enumeration)"
 
 add("C13", "E3-smallscope",
-    "All label arrays of shape 2x1x3 over labels {0..2} (quick) / {0..3} (thorough) x all non-empty subsets of the (time,label) pairs present x all injective assignments to node ids {0..3}/{0..4} (identity, permutations and chains such as 1->2,2->1, ids equal to other labels, label reuse across frames, unlisted labels, id 0) through relabel_segmentation directly and through tracks_from_df(df, segmentation) (which adds the 'ids equal => fast path'); oracle: per-pixel out[t,p] = node(t,in[t,p]) (+1 if id 0 present, graph shifted too), background elsewhere, input not modified.",
+    "All label arrays of shape 2x1x3 over labels {0..2} (quick) / {0..3} (thorough) x all non-empty subsets of the (time,label) pairs present x all injective assignments to node ids {0..3}/{0..4} (identity, permutations and chains such as 1->2,2->1, ids equal to other labels, label reuse across frames, unlisted labels, id 0) through relabel_segmentation directly and through tracks_from_df(df, segmentation) (which adds the 'ids equal => fast path'); oracle: per-pixel out[t,p] = node(t,in[t,p]) (+1 if id 0 present, graph shifted too), background elsewhere.",
     "Bounded array shape and id range; pandas/dask trusted.", E3M, "DESIGN.md 4 C13")
 add("C17", "E3-smallscope",
     "All ordered lists of <=3 (quick) / <=4 (thorough; 16-name vocabulary, plus <=3 over all 24) distinct column names from a vocabulary built from the code's own key, display-name and value-name tables plus case variants and unrelated names, x required-key sets {[time],[time,id,parent_id]} x ndim {3,4}; same for edge maps (<=5 names of 8). Oracle: flattened values of the returned map == the input columns, each exactly once, none invented; a column spelled like a required key or seg_id maps to that key.",
@@ -83,11 +83,11 @@ add("C18", "E3-smallscope",
     "All multisets of <=4 (quick) / <=5 (thorough) points on the lattice frames {0..3} x positions {0..3} (embedded in 2-D and 3-D, with and without anisotropic scale) x max distance {1,1.5,2}, and all label arrays 4x1x3 with globally unique labels from <=3/4 detections with IoU requested: every pattern of empty frames and gaps occurs. Oracle: nodes = detections with time/scaled centroid/area, edge iff next frame and distance <= max (exact on the integer lattice), IoU by pixel counting.",
     "Lattice-bounded; scipy KDTree and skimage.regionprops trusted.", E3M, "DESIGN.md 4 C18")
 add("C19", "E3-smallscope",
-    "ensure_unique_labels on all 65 536 arrays 4x1x2 over {0,1,2,5} and all multi-hypothesis arrays 2x2x1x2 (thorough: also 3x1x3 over {0,1,3}): no label in two frames/hypotheses, per-frame partition and background unchanged, input not modified. relabel_segmentation_with_track_id on all labelled forests <=4/5 nodes x {labels = ids, labels reused across frames} x {with / without a detection missing from the solution}: same label iff same maximal unbranched segment, non-solution detections removed.",
+    "ensure_unique_labels on all 65 536 arrays 4x1x2 over {0,1,2,5} and all multi-hypothesis arrays 2x2x1x2 (thorough: also 3x1x3 over {0,1,3}): no label in two frames/hypotheses, per-frame partition and background unchanged. relabel_segmentation_with_track_id on all labelled forests <=4/5 nodes x {labels = ids, labels reused across frames} x {with / without a detection missing from the solution}: same label iff same maximal unbranched segment, non-solution detections removed.",
     "Bounded shapes and label values.", E3M, "DESIGN.md 4 C19")
 
 add("C12", "E3-smallscope",
-    "tracks_from_df on every labelled forest <=3 (quick) / <=4 (thorough) nodes x id scheme {1..n, non-contiguous, containing 0, descending, strings, non-integer floats} x parent encoding {-1, NaN} x {2D,3D} x column naming {standard, all renamed, id renamed} x extra custom columns (scalar, list-valued string) x position order {standard, permuted}; import_from_geff on stores written with geff.write (forests x id schemes x dims x namings x {per-axis, permuted, pre-stacked position}). Oracle: nodes == source ids (or a link-preserving bijection for renumbered ids), edges == parent links, time / position in mapped order / every mapped property == source cell, caller's DataFrame unmodified. Malformed variants (duplicate id, unknown parent, self link at every row; missing required column / mapping) must raise ValueError.",
+    "tracks_from_df on every labelled forest <=3 (quick) / <=4 (thorough) nodes x id scheme {1..n, non-contiguous, containing 0, descending, strings, non-integer floats} x parent encoding {-1, NaN} x {2D,3D} x column naming {standard, all renamed, id renamed} x extra custom columns (scalar, list-valued string) x position order {standard, permuted}; import_from_geff on stores written with geff.write (forests x id schemes x dims x namings x {per-axis, permuted, pre-stacked position}). Oracle: nodes == source ids (or a link-preserving bijection for renumbered ids), edges == parent links, time / position in mapped order / every mapped property == source cell. Malformed variants (duplicate id, unknown parent, self link at every row; missing required column / mapping) must raise ValueError.",
     "Bounded forests and value schemes; pandas / geff / zarr trusted.", E3M, "DESIGN.md 4 C12")
 add("C14", "E1-explore",
     "The distinct states of a BFS over the real objects (edited sessions: non-contiguous ids, divisions, skip edges, isolated nodes, custom features) in worlds {2D, 3D, per-axis positions, given ids, with segmentation 2D / 3D anisotropic} are each rebuilt and written and re-read as CSV, internal format and GEFF with the explicit corresponding key mapping; compared: nodes, edges, times, positions, track ids, lineage partition, loaded node/edge features, array (GEFF, internal), scale and registry (internal).",
